@@ -227,6 +227,22 @@ func (env *Env) checkWitness(kf *KnownFinding) (bool, string) {
 		}
 		return false, short(tr, 300)
 	}
+	if kind.Kind == "fixpoint" {
+		var w struct {
+			Shape string
+			Names map[string]string
+		}
+		json.Unmarshal(b, &w)
+		sh := importsShapeByName(w.Shape)
+		if sh == nil {
+			return false, "unknown shape " + w.Shape
+		}
+		differs, tr, _, err := env.fixpointObserve(*sh, w.Names)
+		if err != nil {
+			return false, err.Error()
+		}
+		return differs, short(tr, 300)
+	}
 	if kind.Kind == "vars" {
 		var w struct {
 			Shape, Dest, Expect string
